@@ -1,6 +1,7 @@
 import Chihaya.Props.C12
 import Chihaya.Props.C08
 import Chihaya.Props.C10
+import Chihaya.Props.C09
 /-!
 # C13 — no request can crash or wedge the tracker
 
@@ -108,6 +109,30 @@ theorem C13_valid_id_answered (mac : Mac) (lower : Bytes → Bytes) (cfg : Cfg) 
           | internal m => exact absurd hp (parseScrape_not_internal pkt src cfg.opts f hf m)
         | ok req => simp only; cases logic.scrape req <;> rfl
       · rw [if_neg h2]; rfl
+
+/-- **D32 at the request level**: the datagram a served announce is answered with can always be sent — it never
+exceeds the largest UDP payload, however many peers the logic hands back (given only that their addresses have a form
+of the list's family, which `SanitizeAnnounce` and both stores guarantee: `Props/C13Store.lean`). Together with
+`C13_valid_id_answered`: the request gets one datagram *and the datagram fits*. -/
+theorem C13_udp_announce_datagram_fits (mac : Mac) (lower : Bytes → Bytes) (cfg : Cfg) (logic : Logic) (now : Int) (pkt src : Bytes)
+    (hlen : 16 ≤ pkt.length) (hact : Bytes.toNatBE (slice pkt 8 12) = 1 ∨ Bytes.toNatBE (slice pkt 8 12) = 4)
+    (hvalid : validate mac cfg.key (slice pkt 0 8) src now cfg.skewNs = true)
+    (req : AnnReq) (resp : AnnResp)
+    (hparse : parseAnnounce lower pkt src (decide (Bytes.toNatBE (slice pkt 8 12) = 4)) cfg.opts = .ok req)
+    (hlogic : logic.announce req = .ok resp)
+    (hp : ∀ p ∈ (if decide (req.peer.fam = .v6) then resp.v6peers else resp.v4peers),
+        if decide (req.peer.fam = .v6) then p.ip.length = 4 ∨ p.ip.length = 16 else Sanitize.to4 p.ip ≠ none) :
+    ∃ b, (handleRequest mac lower cfg logic now pkt src).out = some b ∧ b.length ≤ maxPayload := by
+  unfold handleRequest
+  have hl : ¬ pkt.length < 16 := by omega
+  have h0 : ¬ Bytes.toNatBE (slice pkt 8 12) = 0 := by omega
+  have hv : ¬ (Bytes.toNatBE (slice pkt 8 12) ≠ 0 ∧ (!validate mac cfg.key (slice pkt 0 8) src now cfg.skewNs) = true) := by
+    simp [hvalid]
+  simp only [hl, if_false]
+  rw [if_neg hv, if_neg h0, if_pos hact]
+  simp only [hparse, hlogic]
+  have htx : (slice pkt 12 16).length = 4 := by rw [Udp.slice_length _ _ _ hlen]
+  exact ⟨_, rfl, (C09_announce_wire (slice pkt 12 16) resp _ _ htx hp).2⟩
 
 end Udp
 
